@@ -14,6 +14,8 @@ import (
 type FuncVC struct {
 	Key      string
 	Script   []string
+	ScriptBlk []int
+	Reach    [][]bool
 	Obls     []*Obligation
 	Notes    []string
 	Errs     []string
@@ -83,7 +85,7 @@ func genVC(P *Program, C *Contracts, S *Sorts, key string, pure map[*ssa.Functio
 		vc.Errs = append(vc.Errs, "no such function in the loaded program: "+key)
 		return vc
 	}
-	ex := &Exec{P: P, C: C, S: S, topKey: key, top: ct, mutable: map[string]bool{}, notes: map[string]bool{}, heapDecl: map[string]bool{}, oblNames: map[string]int{}, globals: map[string]string{}, funcsUsed: map[string]string{}, pure: pure, nonneg: map[string]bool{}, writable: map[string][]string{}, topFn: fn}
+	ex := &Exec{P: P, C: C, S: S, topKey: key, top: ct, mutable: map[string]bool{}, notes: map[string]bool{}, heapDecl: map[string]bool{}, oblNames: map[string]int{}, globals: map[string]string{}, funcsUsed: map[string]string{}, pure: pure, nonneg: map[string]bool{}, writable: map[string][]string{}, topFn: fn, curBlk: -1}
 	for _, h := range ct.Modifies {
 		if _, ok := S.heaps[h]; !ok {
 			ex.fail("%s: modifies unknown heap %s", key, h)
@@ -277,11 +279,13 @@ func genVC(P *Program, C *Contracts, S *Sorts, key string, pure map[*ssa.Functio
 			f.oblige("panics_exact", "no_return_when_panics", implies(retPC, not(panicsCond)), ptags, ct.Panics.Src)
 		}
 		// vacuity guard: some return must be reachable under the preconditions
-		ex.obls = append(ex.obls, &Obligation{Name: shortName(key) + "#cover#return", Kind: "cover", Func: key, Tags: ct.Tags, Prefix: len(ex.script), Goal: not(retPC), Cover: true})
+		ex.obls = append(ex.obls, &Obligation{Name: shortName(key) + "#cover#return", Kind: "cover", Func: key, Tags: ct.Tags, Prefix: len(ex.script), Goal: not(retPC), Cover: true, Blk: -1})
 	} else if ct.Panics == nil {
 		ex.note("function never returns normally: " + key)
 	}
 	vc.Script = ex.script
+	vc.ScriptBlk = ex.scriptBlk
+	vc.Reach = forwardReach(fn)
 	vc.Obls = ex.obls
 	vc.Notes = sortedKeys(ex.notes)
 	vc.Errs = ex.errs
@@ -299,12 +303,12 @@ func (f *Frame) assumeNonFresh(t types.Type, term string) {
 	switch u := t.Underlying().(type) {
 	case *types.Pointer, *types.Map:
 		if !f.ex.nonneg[term] {
-			f.ex.assume("(>= " + term + " 0)")
+			f.ex.global(func() { f.ex.assume("(>= " + term + " 0)") })
 			f.ex.nonneg[term] = true
 		}
 	case *types.Slice:
 		if !f.ex.nonneg["(Slice.ptr "+term+")"] {
-			f.ex.assume("(>= (Slice.ptr " + term + ") 0)")
+			f.ex.global(func() { f.ex.assume("(>= (Slice.ptr " + term + ") 0)") })
 			f.ex.nonneg["(Slice.ptr "+term+")"] = true
 		}
 	case *types.Struct:
